@@ -280,6 +280,23 @@ def r3(ctx, facts, cfg):
                                           (x["k"] == "UnaryOperator" and x["op"] == "++" and is_this_field(x["sub"], "_index"))) for x in t_nodes)
                 zero = any(isnode(x) and x["k"] == "BinaryOperator" and x["op"] == "=" and is_this_field(x["lhs"], "_index") and const_val(x["rhs"]) == 0 for x in f_nodes)
                 wrap_ok = inc1 and zero
+    # the same advance written as one assignment: _index = (_index < _capacity - 1) ? _index + 1 : 0
+    def unparen(e):
+        e = strip(e, casts=True)
+        while isnode(e) and e["k"] == "ParenExpr":
+            e = strip(e.get("sub") or (e.get("c") or [None])[0], casts=True)
+        return e
+    for n in s.walk():
+        if n["k"] == "BinaryOperator" and n["op"] == "=" and is_this_field(n["lhs"], "_index"):
+            ce = unparen(n["rhs"])
+            if isnode(ce) and ce["k"] == "ConditionalOperator":
+                cs = cmp_sides(ce.get("cond"))
+                lim = unparen(cs[2]) if cs else None
+                if cs and cs[0] == "<" and is_this_field(unparen(cs[1]), "_index") and isnode(lim) and lim["k"] == "BinaryOperator" and lim["op"] == "-" and \
+                        const_val(lim["rhs"]) == 1 and is_this_field(unparen(lim["lhs"]), "_capacity"):
+                    t_, e_ = unparen(ce.get("then")), unparen(ce.get("else"))
+                    wrap_ok = isnode(t_) and t_["k"] == "BinaryOperator" and t_["op"] == "+" and is_this_field(unparen(t_["lhs"]), "_index") and \
+                        const_val(t_["rhs"]) == 1 and const_val(e_) == 0
     sp = npos(s, slot)
     zero, otherw = index_writes(s)
     adv = npos(s, zero + otherw)
